@@ -272,7 +272,8 @@ impl<const N: usize> Exec<N> {
         } else {
             let refname = "/sim/reference.sodg";
             let g = self.gs[i].as_ref().unwrap();
-            let r = guarded(|| g.save(Path::new(refname)));
+            // on a copy, so that the graph under test sees exactly the save() calls of the plan
+            let r = guarded(|| g.clone().save(Path::new(refname)));
             let bytes = {
                 let mut d = self.disk.borrow_mut();
                 d.disarm();
